@@ -87,9 +87,29 @@ Theorem C01_derived_lists :
 Proof. exact derived_lists. Qed.
 Print Assumptions C01_derived_lists.
 
+(* 9. The remaining accessors: face_to_vertices / edge_to_vertices are the stored face / edge; other_edge_end is the other
+      end of the stored edge (None when V is not an end); in_face_index is the first position of V in the face (None when
+      absent); opposite_face with indices is the face across the edge with the local indices of u and v in it;
+      common_edge is the first side of face F1 (in side order) across which lies F2, as a sorted pair. *)
+Theorem C01_remaining_accessors :
+  forall nv faces m sortflag T,
+    wf_faces nv faces -> mesh_of nv faces m -> compute_connectivity m sortflag = Ok T ->
+    remaining_accessors_stmt faces m sortflag.
+Proof. exact remaining_accessors. Qed.
+Print Assumptions C01_remaining_accessors.
+
 (* 7. The mesh mouette builds from a face list (edges and corners completed from the faces) is such a mesh. *)
 Theorem C01_build_mesh_of :
   forall nv faces, wf_faces nv faces ->
     mesh_of nv faces (build_mesh nv faces) /\ edges_exact faces (m_edges (build_mesh nv faces)).
 Proof. exact build_mesh_ok. Qed.
 Print Assumptions C01_build_mesh_of.
+
+(* 10. The per-case checks of the correspondence (wf_mesh_b on the finished object's face list, edges_ok_b on its edge
+       container, its corner container = gen_corners of its faces) imply the hypotheses of theorems 1-9 for it, whatever
+       route built the object. *)
+Theorem C01_case_hypotheses_sound :
+  forall nv faces edges, wf_mesh_b nv faces = true -> edges_ok_b faces edges = true ->
+  wf_mesh nv faces /\ mesh_of nv faces (mkMesh nv faces edges (gen_corners faces)) /\ edges_exact faces edges.
+Proof. exact case_hypotheses_sound. Qed.
+Print Assumptions C01_case_hypotheses_sound.
